@@ -107,6 +107,7 @@ class BlockEval:
         self.nsym = 0
         self.symof = {}     # description -> symbol prefix
         self.loads = []
+        self.override = {}   # inst id -> BV (assumed value shapes, e.g. sextets)
 
     def fresh(self, w, why):
         self.nsym += 1
@@ -155,6 +156,15 @@ class BlockEval:
     def step(self, i):
         op = i.op
         key = ('i', i.id)
+        if i.id in self.override:
+            self.env[key] = self.override[i.id]
+            return
+        if op in ('udiv', 'urem') and all(isinstance(self.val(o), BV) and self.val(o).concrete() is not None
+                                            for o in i.ops):
+            ca, cb = self.val(i.ops[0]).concrete(), self.val(i.ops[1]).concrete()
+            if cb:
+                self.env[key] = BV.const(i.bits, ca // cb if op == 'udiv' else ca % cb)
+                return
         if op in ('xor', 'and', 'or', 'shl', 'lshr', 'ashr', 'add', 'sub', 'mul'):
             a = self.val(i.ops[0])
             b = self.val(i.ops[1])
@@ -356,3 +366,136 @@ class BlockEval:
         for k, b in symbits:
             r = r.xor(BV.const(w, tbl[base | (1 << k)] ^ sub0).scale(b))
         return r
+
+
+class DataDependentBranch(Exception):
+    def __init__(self, inst):
+        self.inst = inst
+
+
+class FuncEval(BlockEval):
+    """whole-function evaluation in the GF(2) domain with concrete control
+    flow: scalar parameters may be fixed to constants (e.g. the length), the
+    remaining integers and the bytes behind pointer parameters are symbolic.
+    A branch whose condition is not decided by the constants is reported
+    (DataDependentBranch)."""
+
+    def __init__(self, fn, mod, args, max_steps=200000):
+        BlockEval.__init__(self, fn, mod)
+        self.max_steps = max_steps
+        self.reads = []      # (param name, offset, width)
+        self.bytes = {}      # (base, off) -> BV(8)
+        for n, a in enumerate(args):
+            self.env[('a', n)] = a
+
+    def val(self, v, w=None):
+        if v.k == 'null':
+            return ('p', None, 0)
+        return BlockEval.val(self, v, w)
+
+    def byte(self, base, off):
+        k = (base, off)
+        if k not in self.bytes:
+            self.bytes[k] = BV.sym(8, '%s[%d].' % (base, off))
+        return self.bytes[k]
+
+    def run(self):
+        f = self.fn
+        b = f.entry
+        prev = None
+        steps = 0
+        while True:
+            # phis
+            vals = []
+            for i in b.insts:
+                if i.op == 'dbg':
+                    continue
+                if i.op != 'phi':
+                    break
+                for (bb, v) in i.incoming:
+                    if prev is not None and bb == prev.name:
+                        vals.append((i, self.val(v)))
+            for i, v in vals:
+                self.env[('i', i.id)] = v
+            for i in b.insts:
+                steps += 1
+                if steps > self.max_steps:
+                    raise AnalysisBroken('%s: evaluation budget exceeded' % f.name)
+                if i.op in ('dbg', 'phi'):
+                    continue
+                if i is b.term:
+                    break
+                self.fstep(i)
+            t = b.term
+            if t.op == 'ret':
+                return self.val(t.ops[0]) if t.ops else None
+            if t.op == 'br':
+                if 'f' not in t.d:
+                    prev, b = b, f.bmap[t.d['t']]
+                    continue
+                c = self.val(t.ops[0])
+                cc = c.concrete() if isinstance(c, BV) else None
+                if cc is None:
+                    raise DataDependentBranch(t)
+                prev, b = b, f.bmap[t.d['t'] if cc else t.d['f']]
+                continue
+            raise AnalysisBroken('%s: unsupported terminator %s' % (f.name, t.op))
+
+    def fstep(self, i):
+        op = i.op
+        key = ('i', i.id)
+        if op == 'getelementptr':
+            p = self.val(i.ops[0])
+            if isinstance(p, tuple) and p[0] == 'p':
+                off = p[2]
+                from irlib import V
+                for s in i.d['gep']['steps']:
+                    if s['k'] == 'field':
+                        off += s['off']
+                    else:
+                        iv = self.val(V(s['v']))
+                        c = iv.concrete() if isinstance(iv, BV) else None
+                        if c is None:
+                            raise AnalysisBroken('%s: symbolic address at %s' % (self.fn.name, i.where()))
+                        if c >> (iv.w - 1):
+                            c -= 1 << iv.w
+                        off += s['stride'] * c
+                self.env[key] = ('p', p[1], off)
+                return
+            if isinstance(p, tuple) and p[0] == 'global':
+                self.env[key] = ('gep', i)
+                return
+            self.env[key] = ('ptr', key)
+            return
+        if op in ('bitcast', 'addrspacecast'):
+            self.env[key] = self.val(i.ops[0])
+            return
+        if op == 'load':
+            p = self.val(i.ops[0])
+            if isinstance(p, tuple) and p[0] == 'p' and p[1] is not None and i.ty.get('k') == 'int':
+                nb = i.bits // 8
+                self.reads.append((p[1], p[2], nb, i))
+                bits = []
+                for k in range(nb):
+                    bits += self.byte(p[1], p[2] + k).bits
+                self.env[key] = BV(i.bits, bits)
+                return
+            if isinstance(p, tuple) and p[0] == 'gep':
+                r = self.table_lookup(i, i.ops[0])
+                if r is not None:
+                    self.env[key] = r
+                    return
+        if op == 'icmp':
+            a = self.val(i.ops[0])
+            b = self.val(i.ops[1])
+            if isinstance(a, tuple) and isinstance(b, tuple) and a[0] == 'p' and b[0] == 'p' and a[1] == b[1]:
+                res = {'eq': a[2] == b[2], 'ne': a[2] != b[2], 'ult': a[2] < b[2], 'ule': a[2] <= b[2],
+                       'ugt': a[2] > b[2], 'uge': a[2] >= b[2]}.get(i.pred)
+                if res is not None:
+                    self.env[key] = BV.const(1, 1 if res else 0)
+                    return
+            if isinstance(a, tuple) and isinstance(b, tuple) and a[0] == 'p' and b[0] == 'p' and \
+                    (a[1] is None) != (b[1] is None) and i.pred in ('eq', 'ne'):
+                self.env[key] = BV.const(1, 1 if i.pred == 'ne' else 0)
+                return
+        self.step(i)
